@@ -139,6 +139,22 @@ def merge_result(data, context, result, state, output_path=None):
     output_path = output_path if output_path else state.get("OutputPath", "$")
     return apply_path(output, context, output_path)
 
+class _SlotMarker:
+    """
+    Unique marker objects for the per-branch result slots of Parallel and Map
+    states. The slots are volatile (never serialised), so using objects rather
+    than in-band values such as None or marker strings means that a branch whose
+    genuine output happens to be null or one of those strings is still a result.
+    """
+    def __init__(self, name):
+        self.name = name
+    def __repr__(self):
+        return self.name
+
+PENDING = _SlotMarker("__PENDING__")        # No result yet for this slot
+CAUGHT = _SlotMarker("__CAUGHT__")          # Branch error has been caught
+TERMINATED = _SlotMarker("__TERMINATED__")  # Branch has been terminated
+
 class BranchMetadata:
     def __init__(self, context, timeout):
         """
@@ -956,7 +972,7 @@ class StateEngine(object):
 
                 # Check if all outstanding branches have been terminated
                 for i in range(start, end):
-                    if result[i] == None or result[i] == "__CAUGHT__":
+                    if result[i] is PENDING or result[i] is CAUGHT:
                         """
                         If there isn't a result for this branch check if there
                         are pending Tasks, if there are then cancel the Task.
@@ -1067,7 +1083,7 @@ class StateEngine(object):
                 #print("Initialise the branch_results object")
                 length = branch_info["Length"]
                 all_branch_results[current_id] = {
-                    "results": [None]*length,
+                    "results": [PENDING]*length,
                     "ids": [None]*length,  # Unacknowledged messages
                     "state": [None]*length,
                 }
@@ -1098,11 +1114,11 @@ class StateEngine(object):
                 #print("Terminating branch {}".format(index))
 
                 results = branch_results["results"]
-                results[index] = "__TERMINATED__"
+                results[index] = TERMINATED
 
                 if parent_terminated:
                     #print("Terminating parent branch {}".format(parent_index))
-                    parent_results[parent_index] = "__TERMINATED__"
+                    parent_results[parent_index] = TERMINATED
 
                 #print(self.branch_metadata)
                 #print()
@@ -1668,7 +1684,7 @@ class StateEngine(object):
                                         if parent_res_id in abr:
                                             branch_results = abr[parent_res_id]
                                             results = branch_results["results"]
-                                            results[index] = "__CAUGHT__"
+                                            results[index] = CAUGHT
 
                         break
 
@@ -3101,7 +3117,7 @@ class StateEngine(object):
                     length = branch_info["Length"]
 
                 all_branch_results[current_id] = {
-                    "results": [None]*length,
+                    "results": [PENDING]*length,
                     "ids": [None]*length,  # Unacknowledged messages
                     "state": [None]*length,
                 }
@@ -3144,10 +3160,10 @@ class StateEngine(object):
             else:
                 end = len(result)
 
-            if not error and (None in result or "__CAUGHT__" in result):
+            if not error and (PENDING in result or CAUGHT in result):
                 if max_concurrency:
                     partial = result[start:end]
-                    if not (None in partial or "__CAUGHT__" in partial):
+                    if not (PENDING in partial or CAUGHT in partial):
                         """
                         If we've got all results for a batch of max_concurrency
                         send an event to re-enter the Map state and trigger
@@ -3240,7 +3256,7 @@ class StateEngine(object):
                         Iterators are Aborted so check branch_results["state"].
                         """
                         if branch_state[i] != None:
-                            if result[i] == None:
+                            if result[i] is PENDING:
                                 self.update_execution_history(
                                     state_machine,
                                     execution_arn,
